@@ -38,7 +38,7 @@ def run(tier, seed, replay=None):
     # hook-event level: the same real-node runs, plus the meshes built by the repository's own tests, against NodeTrace.tla
     nt = nodetrace.validate(wd, [out["hooks"], nodetrace.repo_test_traces(wd)], timeout=2400)
     for d in nt["diffs"]:
-        if d["event"] in ("ru_seen", "ru_apply", "ru_dupnotice", "flood", "mk_update", "ru_self"):
+        if d["event"] in ("ru_seen", "ru_apply", "ru_dupnotice", "flood", "mk_update", "ru_self", "node_new"):
             v.violation("C06:%s:%s" % (d["event"], "+".join(d["what"])),
                         "node event '%s' is not a behaviour of NetCore/NodeTrace: %s; event %s" % (d["event"], ",".join(d["what"]), str(d["context"][-1])[:600]),
                         {"instance": d["instance"], "context": d["context"]})
